@@ -131,6 +131,11 @@ def between():
 
 
 CURATED += [
+    # instructions that have no 16-bit form at all (fences, atomics, system, csr, multiply) in front of labelled compressible ones
+    ('fence_then_label_fc', ['fence', 'L1:', FC, 'bnez x9 L1', 'j L1', 'dw L1']),
+    ('amo_then_label_fc', ['L0:', 'amoswap.w x5 x6 x7', 'bnez x5 L0', 'L1:', FC, 'beq x9 x0 L1', 'jal L1', 'dw L0']),
+    ('lrsc_loop_label_fc', ['L0:', 'lr.w x5 x6', 'sc.w x7 x6 x5', 'L1:', FC, 'bnez x7 L0', 'j L1', 'L2:', 'ret', 'dw L2']),
+    ('system_then_label_fc', ['ecall', 'csrrw x5 x6 0x300', 'mul x8 x8 x9', 'fence.i', 'L1:', 'mv x8 x9', 'L2:', FC, 'j L1', 'dw L2']),
     ('fc_label_bwd_br', [FC, 'L1:', G(0), 'bnez x8 L1']),
     ('fc_fc_label_bwd_j', [FC, FC, 'L1:', G(0), 'j L1']),
     ('mv_label_bwd_br', ['mv x8 x9', 'L1:', G(0), 'beq x8 x0 L1', 'jal L1']),
